@@ -27,6 +27,15 @@ def one(job):
         rc, out = sh("./check %s --no-mutants" % pid, cwd=V, env=env)
         import re
         rules = sorted(set(re.findall(r"rule=(\S+) instance=(\S+)", out)))
+        mp = os.path.join(d, "meta.json")
+        if os.path.exists(mp) and os.environ.get("UPDATE_META"):
+            # the recorded verdict follows the current checks; what the checks said when the change was first confirmed is kept
+            m = json.load(open(mp))
+            if "first_pass" not in m:
+                m["first_pass"] = {"caught": m.get("caught"), "reported_by": (m.get("check") or {}).get("reported_by", [])}
+            m["check"] = {"exit": rc, "reported_by": ["%s %s" % r for r in rules][:8]}
+            m["caught"] = rc == 1 and bool(rules)
+            json.dump(m, open(mp, "w"), indent=1)
         return pid, n, ("caught" if rc == 1 and rules else "MISSED(exit %d)" % rc), ["%s %s" % r for r in rules][:2]
     finally:
         sh("git -C /repo worktree remove --force %s" % wt)
